@@ -201,26 +201,106 @@ def replay_native(cfg, harness, values):
     return res
 
 
-def run_many(jobs, workers=None):
-    """jobs: list of dicts {cfg, harness, timeout, mem_gb}; builds each needed cfg once, then runs in parallel"""
-    cfgs = sorted(set(j["cfg"] for j in jobs))
-    builds = {}
-    with concurrent.futures.ThreadPoolExecutor(max_workers=len(cfgs) or 1) as ex:
-        futs = {c: ex.submit(build, c) for c in cfgs}
-        for c, f in futs.items():
-            builds[c] = f.result()
+def parse_terse(out, wanted):
+    """terse -j output -> {short harness name: result dict}"""
+    cur = {}
+    res = {}
+    blocks = re.split(r"\n(?=Thread \d+: )", out)
+    for b in blocks:
+        m = re.match(r"Thread (\d+): Checking harness (\S+?)\.\.\.", b)
+        if m:
+            cur[m.group(1)] = m.group(2)
+            continue
+        m = re.match(r"Thread (\d+): \s*\n", b)
+        if m and "VERIFICATION" in b:
+            full = cur.get(m.group(1))
+            if not full:
+                continue
+            short = full.split("::")[-1]
+            r = {"harness": short, "full_name": full, "failed": [], "covers": [], "stats": {}}
+            v = re.search(r"VERIFICATION:- (SUCCESSFUL|FAILED)", b)
+            r["verdict"] = v.group(1) if v else None
+            c = re.search(r"\*\* (\d+) of (\d+) failed", b)
+            if c:
+                r["stats"]["checks_failed"], r["stats"]["checks"] = int(c.group(1)), int(c.group(2))
+            c = re.search(r"\*\* (\d+) of (\d+) cover properties satisfied", b)
+            if c:
+                r["stats"]["covers_satisfied"], r["stats"]["covers"] = int(c.group(1)), int(c.group(2))
+            for f in re.finditer(r"Failed Checks: (.*)\n File: (.*)", b):
+                r["failed"].append({"desc": f.group(1).strip().strip('"'), "loc": f.group(2).strip()})
+            t = re.search(r"Verification Time: ([0-9.]+)s", b)
+            if t:
+                r["stats"]["verification_s"] = float(t.group(1))
+                r["wall_s"] = round(float(t.group(1)), 1)
+            if "timed out" in b.lower() or "timeout" in b.lower():
+                r["timeout"] = True
+            r["raw"] = b[-1500:]
+            res[short] = r
+    return res
+
+
+def run_batch(cfg, harnesses, timeout, jobs, mem_gb=14):
+    """one `cargo kani -j` invocation for all harnesses of one configuration (single compile, parallel CBMC runs)"""
+    cmd = ["cargo", "kani"] + CFG_FEATURES[cfg] + KANI_FLAGS + ["-Z", "unstable-options", "--harness-timeout", "%ds" % timeout,
+           "-j", str(jobs), "--output-format", "terse", "--target-dir", target_dir(cfg)]
+    for h in harnesses:
+        cmd += ["--harness", h]
+    rounds = (len(harnesses) + jobs - 1) // jobs
+    rc, out, dt, to = _run(cmd, timeout * rounds + 600, mem_gb)
+    parsed = parse_terse(out, harnesses)
     results = []
-    runnable = []
-    for j in jobs:
-        ok, out, dt = builds[j["cfg"]]
-        if not ok:
-            results.append({"harness": j["harness"], "cfg": j["cfg"], "outcome": "BUILD-ERROR", "tail": out[-2500:], "stats": {},
-                            "failed": [], "covers": [], "wall_s": round(dt, 1)})
+    extra = set(parsed) - set(harnesses)
+    for h in harnesses:
+        r = parsed.get(h)
+        if r is None:
+            r = {"harness": h, "failed": [], "covers": [], "stats": {}, "verdict": None, "raw": out[-2500:]}
+        r["cfg"] = cfg
+        if extra:
+            r["outcome"] = "ERROR"
+            r["tail"] = "harness filter matched additional harnesses: %s" % sorted(extra)
+        elif r.get("verdict") is None:
+            r["outcome"] = "TIMEOUT" if (to or r.get("timeout") or "imed out" in r.get("raw", "")) else "ERROR"
+            r["tail"] = r.get("raw", "")[-1500:]
+        elif r["verdict"] == "FAILED":
+            if r.get("timeout") or (not r["failed"] and "imed out" in r.get("raw", "")):
+                r["outcome"] = "TIMEOUT"
+            elif r["failed"] and all("unwinding assertion" in f["desc"] for f in r["failed"]):
+                r["outcome"] = "UNWIND"
+            elif not r["failed"]:
+                r["outcome"] = "ERROR"
+                r["tail"] = r.get("raw", "")[-1500:]
+            else:
+                r["outcome"] = "FAIL"
         else:
-            runnable.append(j)
-    workers = workers or int(os.environ.get("VERIF_JOBS", "0")) or min(16, os.cpu_count() or 4)
-    with concurrent.futures.ThreadPoolExecutor(max_workers=workers) as ex:
-        futs = [ex.submit(run_harness, j["cfg"], j["harness"], j.get("timeout", 600), j.get("mem_gb", 14)) for j in runnable]
-        for f in futs:
-            results.append(f.result())
-    return results, {c: round(builds[c][2], 1) for c in cfgs}
+            st = r["stats"]
+            if st.get("covers", 0) == 0 or st.get("covers_satisfied") != st.get("covers"):
+                r["outcome"] = "VACUOUS"
+            else:
+                r["outcome"] = "PASS"
+        results.append(r)
+    return results, dt, rc, out
+
+
+def run_many(jobs, workers=None):
+    """jobs: list of dicts {cfg, harness, timeout, mem_gb}; one batch invocation per configuration, configurations
+    in parallel, the CPU budget divided between them"""
+    cfgs = sorted(set(j["cfg"] for j in jobs))
+    total = workers or int(os.environ.get("VERIF_JOBS", "0")) or min(16, os.cpu_count() or 4)
+    per = max(1, total // max(1, len(cfgs)))
+    results, times = [], {}
+
+    def one(cfg):
+        hs = [j["harness"] for j in jobs if j["cfg"] == cfg]
+        to = max(j.get("timeout", 600) for j in jobs if j["cfg"] == cfg)
+        mem = max(j.get("mem_gb", 14) for j in jobs if j["cfg"] == cfg)
+        return run_batch(cfg, hs, to, min(per, len(hs)), mem)
+
+    with concurrent.futures.ThreadPoolExecutor(max_workers=len(cfgs) or 1) as ex:
+        futs = {c: ex.submit(one, c) for c in cfgs}
+        for c, f in futs.items():
+            rs, dt, rc, out = f.result()
+            times[c] = round(dt, 1)
+            if not rs or all(r.get("verdict") is None for r in rs):
+                log("[kani batch %s] no results, rc=%s\n%s" % (c, rc, out[-3000:]))
+            results += rs
+    return results, times
